@@ -524,6 +524,27 @@ fn replay(path: &str) -> Value {
                 }
             }
         }
+        // chains `a op b op b`: left-associative, every application on its own — the form with a hidden first operand
+        // and literal constants (what a folder might re-associate) must agree with the fully parenthesised form over
+        // parameters (no oracle needed: the two are twins)
+        if let (Some(b), true) = (b, ["+", "-", "*", "/"].contains(&op) && ty != Ty::Bool) {
+            if cache.lit_ok(b) {
+                let (tn, lb) = (ty.name(), b.lit().unwrap());
+                let f = format!("(a: {tn}) -> {tn} {{ return a {op} {lb} {op} {lb} }}");
+                let g = format!("(a: {tn}, b: {tn}) -> {tn} {{ return (a {op} b) {op} b }}");
+                let (out_f, _) = cache.call_api(&f, false, vec![a.var()]);
+                let (out_g, _) = cache.call_api(&g, true, vec![a.var(), b.var()]);
+                if out_f != out_g {
+                    let mut d = case_json(t, op, a, Some(b));
+                    d["form"] = json!("chain");
+                    d["program"] = json!(format!("{f} called with ({})", a.show()));
+                    d["expected"] = out_show(&out_g);
+                    d["got"] = out_show(&out_f);
+                    d["twin"] = json!(format!("{g} called with ({}, {})", a.show(), b.show()));
+                    mm.push("chain", d);
+                }
+            }
+        }
         if idx % (cases.len() / 5 + 1) == 7 {
             samples.push(json!({"case": case_json(t, op, a, b), "spec": out_show(&expected),
                 "impl": runs.iter().map(|r| json!({"form": r.form, "program": r.program, "got": out_show(&r.out)})).collect::<Vec<_>>()}));
@@ -726,6 +747,24 @@ fn record(out_path: &str, n_int: usize, n_float: usize, cases_path: Option<&str>
                     d["got_cell"] = r.cell.as_ref().map(out_show).unwrap_or(json!(null));
                     mm.push("ieee", d);
                 }
+            }
+        }
+        // chain `a op b op b` with a hidden first operand and literal constants: ((a op b) op b), every application
+        // rounded on its own (host f64 as the reference)
+        if ["+", "-", "*", "/"].contains(op) && cache.lit_ok(sb) {
+            let (fa, fb) = (f64::from_bits(*a), f64::from_bits(*b));
+            let host = host_float(op, host_float(op, fa, fb), fb).to_bits();
+            let lb = sb.lit().unwrap();
+            let f = format!("(a: float) -> float {{ return a {op} {lb} {op} {lb} }}");
+            let (out_f, _) = cache.call_api(&f, false, vec![sa.var()]);
+            ieee_checked += 1;
+            if out_f != Out::F(host) {
+                let mut d = case_json("float2", op, sa, Some(sb));
+                d["form"] = json!("chain");
+                d["program"] = json!(format!("{f} called with ({})", sa.show()));
+                d["expected"] = out_show(&Out::F(host));
+                d["got"] = out_show(&out_f);
+                mm.push("ieee", d);
             }
         }
         if i % (float_cases.len() / 3 + 1) == 11 {
